@@ -160,7 +160,9 @@ func main() {
 	thorough := flag.Bool("thorough", false, "larger scopes")
 	replay := flag.String("replay", "", "evidence/replay/C08-*.json: re-run exactly that case")
 	search := flag.Int("search", 0, "search mode: run this many forged chains and print failing inputs")
+	norev := flag.Bool("norevhook", false, "the sticky.revert call site is not available in the tree under test")
 	flag.Parse()
+	bg.RevHook = !*norev
 	sarama.Logger = nopLogger{}
 
 	if *search > 0 {
@@ -572,7 +574,7 @@ func doHunt(seed int64, n int) {
 			}
 			continue
 		}
-		if run.Other["sticky.revert"] > 0 {
+		if run.Reverted {
 			rev++
 			k, what := bg.Validity(&run.In, run.Plan)
 			b, _ := json.Marshal(run)
@@ -709,7 +711,7 @@ func doClimb(seed int64, restarts int) {
 				hangs++
 				continue
 			}
-			if run.Other["sticky.revert"] > 0 {
+			if run.Reverted {
 				k, what := bg.Validity(&run.In, run.Plan)
 				b, _ := json.Marshal(run)
 				fmt.Println("REVERT", k, what, "fixed", run.Score[4], string(b))
@@ -817,7 +819,7 @@ func doEnum(M, n1, n2, shard, shards int) {
 			if run.NPicks > 0 {
 				moved++
 			}
-			if run.Other["sticky.revert"] > 0 {
+			if run.Reverted {
 				rev++
 				k, what := bg.Validity(&run.In, run.Plan)
 				b, _ := json.Marshal(run)
@@ -894,7 +896,7 @@ func doSearch(seed int64, chains int) {
 				}
 				fmt.Println("PICK", kind, "step", s, "members", len(run.In.Members), "topics", len(run.In.Topics), "parts", np, "npicks", len(run.Oracle.Picks))
 			}
-			if run.Other["sticky.revert"] > 0 {
+			if run.Reverted {
 				reverts++
 				if reverts <= 3 {
 					b, _ := json.Marshal(run)
@@ -923,7 +925,7 @@ func doSearch(seed int64, chains int) {
 		if len(run.Oracle.Picks) > 0 {
 			advPicks++
 		}
-		if run.Other["sticky.revert"] > 0 {
+		if run.Reverted {
 			advRev++
 			if advRev <= 3 {
 				b, _ := json.Marshal(run)
